@@ -346,6 +346,14 @@ def rule_space(ctx):
                 tag[pat_ids[0]] = t
         elif self_field(cur) == "dataset" and "enumerate" in chain and pat_ids:
             tag[pat_ids[0]] = "sample"      # counter over dataset rows
+        elif self_field(cur) in maps and pat_ids and not any(nm in chain for nm in ("zip", "map", "rev", "skip", "chain")):
+            # `self.active_set.iter().map(|&sample| ..)`: what comes out of the map are sample indices; with `enumerate()` the
+            # counter in front of them is a position
+            if "enumerate" in chain and len(pat_ids) >= 2:
+                tag[pat_ids[0]] = "position"
+                tag[pat_ids[1]] = "sample"
+            elif "enumerate" not in chain:
+                tag[pat_ids[0]] = "sample"
     for n in walk(fn["body"]):
         if n.get("k") == "Match" and n.get("src") == "ForLoopDesugar":
             sc = strip(n["scrut"])
@@ -1395,8 +1403,9 @@ def rule_nusetup(ctx):
 def rules(tier):
     from . import carry, c04
     from . import precision
-    from . import inplace
-    return [inplace.make_rule("R-C13-overwrite", lambda f: f["d"]["krate"] == "linfa_svm", 2, "the support vector machines"),
+    from . import inplace, blockmean
+    return [blockmean.make_tile_rule("R-C13-tiles", lambda f: f["d"]["krate"] in ("linfa_svm", "linfa_kernel"), "linfa-svm and linfa-kernel (kernel matrix construction)"),
+            inplace.make_rule("R-C13-overwrite", lambda f: f["d"]["krate"] == "linfa_svm", 2, "the support vector machines"),
             rule_precombine, rule_permute, rule_nusetup, rule_reselect, rule_islinear, rule_decision, rule_swap, rule_bound, rule_space, rule_sv, rule_sib, rule_snapshot, rule_rho, rule_rescale, rule_memorder, rule_extent, rule_kernel,
             carry.make_clone_rule("R-C13-clone", {"linfa_svm", "linfa_kernel"}, 6), carry.make_setter_rule("R-C13-override", {"linfa_svm"}, 6), c04.make_carry_rule("R-C13-carry", {"SvmParams"}, 6),
             precision.make_rule("R-C13-precision", lambda f: f["d"]["krate"] in ("linfa_svm", "linfa_kernel"), 100, "linfa-svm and linfa-kernel"),
